@@ -1345,3 +1345,137 @@ def r_printable_per_character(ctx, repo):
                   'is accepted then depends on whether its neighbour was delivered in the same chunk, so a stream and the same '
                   'text as str can disagree')
     return rule
+
+
+# --------------------------------------------------------------------------------------------- R-INDENT-WRITERS
+def r_indent_writers(ctx, repo):
+    rule = ctx.rule('R-INDENT-WRITERS', 'the emitter\'s current indentation is set only by increase_indent (to a multiple step of '
+                                        'best_indent) and restored only from the indents stack: no state handler computes an '
+                                        'indentation of its own')
+    E = repo.cls('emitter.Emitter')
+    n = 0
+    for m in E.methods.values():
+        if not m.params:
+            continue
+        sn = m.params[0]
+        for s in walk_function(m.node):
+            targets = []
+            if isinstance(s, ast.Assign):
+                targets = [t for t in s.targets if isinstance(t, ast.Attribute) and t.attr == 'indent'
+                           and isinstance(t.value, ast.Name) and t.value.id == sn]
+            elif isinstance(s, ast.AugAssign) and isinstance(s.target, ast.Attribute) and s.target.attr == 'indent' \
+                    and isinstance(s.target.value, ast.Name) and s.target.value.id == sn:
+                targets = [s.target]
+            if not targets:
+                continue
+            n += 1
+            v = s.value
+            from_stack = isinstance(v, ast.Call) and isinstance(v.func, ast.Attribute) and v.func.attr == 'pop' \
+                and isinstance(v.func.value, ast.Attribute) and v.func.value.attr == 'indents'
+            none = isinstance(v, ast.Constant) and v.value is None
+            if m.name in ('increase_indent', '__init__') or from_stack or none:
+                rule.ok(m.loc(s), 'self.indent set by %s' % ('the indents stack' if from_stack else m.name))
+            else:
+                rule.fail('%s|indent' % m.qualname, m.module.rel, s.lineno, m.qualname, A.anon_text(s, m.node, 60),
+                          '%s assigns self.indent itself: lines that start an entry of the block collection are then indented by '
+                          'something else than a multiple of the requested indent' % m.qualname)
+    if n < 3:
+        raise AnalysisError('only %d assignments of Emitter.indent found' % n)
+    return rule
+
+
+# ------------------------------------------------------------------------------------------ R-NO-MUTABLE-DEFAULT
+def r_no_mutable_default(ctx, repo, modules=None):
+    rule = ctx.rule('R-NO-MUTABLE-DEFAULT', 'no function has a mutable default argument (a dict / list / set display or constructor call): '
+                                            'such an object is created once per process, so what one call puts into it is seen by every '
+                                            'later call')
+    n = 0
+    for f in _all_funcs(repo, modules or [m for m in repo.modules if repo.modules[m].kind == 'py']):
+        a = f.node.args
+        for d in list(a.defaults) + [x for x in a.kw_defaults if x is not None]:
+            n += 1
+            mutable = isinstance(d, (ast.Dict, ast.List, ast.Set, ast.ListComp, ast.DictComp, ast.SetComp)) or (
+                isinstance(d, ast.Call) and isinstance(d.func, ast.Name) and d.func.id in ('dict', 'list', 'set', 'bytearray')) or (
+                isinstance(d, ast.Call) and norm(d.func) in ('collections.OrderedDict', 'collections.defaultdict', 'collections.deque'))
+            if mutable:
+                rule.fail('%s|default' % f.qualname, f.module.rel, d.lineno, f.qualname, A.anon_text(d, f.node, 40),
+                          '%s has a mutable default argument: the object is shared by all calls in the process, so state written '
+                          'into it by one load / dump is still there for the next one' % f.qualname)
+    rule.instances += 1
+    rule.ok('package', '%d default values examined' % n)
+    return rule
+
+
+# --------------------------------------------------------------------------------------- R-CONSTRUCTED-KEY-HASHING
+HASHABLE_NAMES = ('collections.abc.Hashable', 'collections.Hashable', 'Hashable')
+
+
+def r_constructed_key_hashing(ctx, repo):
+    rule = ctx.rule('R-CONSTRUCTED-KEY-HASHING', 'an object built from a node (the result of construct_object) is hashed - used as a dict '
+                                                 'key, added to a set, looked up with `in` a dict / set - only after the '
+                                                 'isinstance(x, Hashable) test whose failure raises ConstructorError')
+    n = 0
+    for f in _all_funcs(repo, ['constructor']):
+        objs = set()
+        for s in walk_function(f.node):
+            if isinstance(s, ast.Assign) and isinstance(s.value, ast.Call) and isinstance(s.value.func, ast.Attribute) \
+                    and s.value.func.attr == 'construct_object':
+                for t in s.targets:
+                    if isinstance(t, ast.Name):
+                        objs.add(t.id)
+        if not objs:
+            continue
+        cfg = CFG(f.node)
+        sets = {t.id for s in walk_function(f.node) if isinstance(s, ast.Assign) and (
+            isinstance(s.value, (ast.Set, ast.Dict)) or (isinstance(s.value, ast.Call) and isinstance(s.value.func, ast.Name)
+                                                         and s.value.func.id in ('set', 'dict', 'frozenset')))
+                for t in s.targets if isinstance(t, ast.Name)}
+        for node in cfg.nodes:
+            if node.ast is None:
+                continue
+            uses = []
+            for x in own_exprs(node):
+                if isinstance(x, ast.Subscript) and isinstance(x.slice, ast.Name) and x.slice.id in objs and isinstance(x.value, ast.Name) \
+                        and isinstance(x.ctx, (ast.Store, ast.Load)) and (x.value.id in sets or isinstance(x.ctx, ast.Store)):
+                    uses.append(x.slice.id)
+                if isinstance(x, ast.Call) and isinstance(x.func, ast.Attribute) and x.func.attr in ('add', 'setdefault', 'discard') \
+                        and x.args and isinstance(x.args[0], ast.Name) and x.args[0].id in objs:
+                    uses.append(x.args[0].id)
+                if isinstance(x, ast.Compare) and len(x.ops) == 1 and isinstance(x.ops[0], (ast.In, ast.NotIn)) \
+                        and isinstance(x.left, ast.Name) and x.left.id in objs and isinstance(x.comparators[0], ast.Name) \
+                        and x.comparators[0].id in sets:
+                    uses.append(x.left.id)
+            for k in uses:
+                n += 1
+                edges = []
+                for t in cfg.nodes:
+                    if t.kind == 'test' and isinstance(t.ast, ast.Call) and norm(t.ast.func) == 'isinstance' and len(t.ast.args) == 2 \
+                            and isinstance(t.ast.args[0], ast.Name) and t.ast.args[0].id == k and norm(t.ast.args[1]) in HASHABLE_NAMES:
+                        edges.append((t, True))
+                if edges and cfg.guarded(node, edges=edges):
+                    rule.ok(f.loc(node.ast), '%s: constructed key hashed after the Hashable test' % f.name)
+                else:
+                    rule.fail('%s|unhashed-guard' % f.qualname, f.module.rel, node.lineno, f.qualname, A.anon_text(node.ast, f.node, 60),
+                              '%s hashes an object built from a node without the dominating isinstance(..., Hashable) test: a key '
+                              'that is a list / dict / set (e.g. an alias to a collection) raises a bare TypeError instead of '
+                              'ConstructorError - or a shape that has no hashing requirement starts to reject such keys' % f.qualname)
+    if not n:
+        raise AnalysisError('no hashing of constructed objects found in the constructor')
+    return rule
+
+
+# --------------------------------------------------------------------------------------- R-NEED-MORE-TOKENS-PURE
+def r_need_more_tokens_pure(ctx, repo):
+    rule = ctx.rule('R-NEED-MORE-TOKENS-PURE', 'need_more_tokens only inspects the token queue and the pending simple keys: it consumes no '
+                                               'input (no scan_*/fetch_*/forward/peek call), so asking whether a token is ready never reads '
+                                               'beyond it')
+    f = _method(repo, 'scanner.Scanner', 'need_more_tokens')
+    bad = [c for c in A.func_calls(f.node) if isinstance(c.func, ast.Attribute) and (
+        c.func.attr.startswith(('scan_', 'fetch_')) or c.func.attr in ('forward', 'peek', 'prefix', 'update', 'get_mark'))]
+    if bad:
+        rule.fail('%s|reads' % f.qualname, f.module.rel, bad[0].lineno, f.qualname, A.anon_text(bad[0], f.node, 50),
+                  'need_more_tokens calls %s: every check for a ready token moves the reader on (over the blank lines and comments '
+                  'after a document, however long), so a finished document is delivered late' % bad[0].func.attr)
+    else:
+        rule.ok(f.loc(), 'need_more_tokens reads no input')
+    return rule
